@@ -101,8 +101,7 @@ CLAIMS = {
                 'feed a handful of malformed inputs.',
         'note': TB + 'not decided: complexity in general, memory for a huge '
                 'announced length, implicit IndexError/KeyError/Recursion '
-                'outside R7; import_private_key/import_public_key boundaries '
-                'are swept (thorough) but not armed.',
+                'outside R7.',
         'technique': 'exception-escape analysis over the resolved call graph '
                      '+ CFG guard-dominance + who-may-call (ast)',
     },
@@ -424,6 +423,71 @@ CLAIMS = {
                      '+ bounded abstract evaluation (ast)',
     },
 }
+
+
+# Rules added after the blind second round of seeded changes (DESIGN.md
+# 0.2.1); appended to the claim text so MANIFEST.json states them.
+ADDENDA = {
+    'C01': 'Also: connection_lost as a table - an EOF not initiated locally '
+           'is reported as ConnectionLost whatever else the connection is '
+           'doing (tail truncation on a packet boundary).',
+    'C02': 'Also: padding is computed from the payload that is sent (same '
+           'reaching definition, e.g. after compression); the AES-GCM nonce '
+           'schedule of RFC 5647 (fixed field kept, 64-bit counter + 1, '
+           'evaluated for every carry position; advanced exactly once per '
+           'packet on every path).',
+    'C03': 'Also: the host key pair chosen for a connection signs under the '
+           'negotiated signature algorithm (set unless its current one '
+           'already equals it).',
+    'C04': 'Also: a known_hosts / authorized_keys lookup never mutates a '
+           'container aliased from the loaded database; TCP channels shadow '
+           'peername so a tunnelled connection does not inherit the jump '
+           'host address.',
+    'C05': 'Also: a new asynchronous validator is stored only after the '
+           'previous one is cancelled; certificate permission lookups '
+           'distinguish "no certificate" from "empty option set".',
+    'C07': 'Also: a stream reader never leaves an empty chunk at the head '
+           'of the receive buffer (it would read as EOF).',
+    'C08': 'Also: stream reader liveness clauses - the resume decision as a '
+           'table (paused and less than one window buffered => resume) and '
+           'every consumer of the receive buffer re-evaluates it before '
+           'returning or blocking.',
+    'C09': 'Also: the drain-waiter release loop lies on every normal path '
+           'through the stream connection_lost.',
+    'C10': 'Also: the import_private_key / import_public_key / '
+           'import_certificate boundaries and the list readers (armed after '
+           'fix F8); optional-dependency names read only under their '
+           'availability flag; no surrogateescape decode feeds a protocol '
+           'error reason; the line editor insert as a table (line never '
+           'longer than max_line_length).',
+    'C11': 'Also: everything staged with the receive keys (decompressor '
+           'included) is installed on every path that installs the keys.',
+    'C12': 'Also: the un-split READ is reached only within the server '
+           'max_read_len; the sparse-range request window end is an '
+           'inductive invariant (linear forms); a sparse copy sets the '
+           'destination length unless the last range reached the total.',
+    'C13': 'Also: the separator / dot-dot tests apply to the listing name '
+           'as finally joined (every reaching definition).',
+    'C14': 'Also: every read of the request packet is inside the try that '
+           'answers a decode error with a status; SFTPError.encode as a '
+           'table (only codes the negotiated version defines are sent).',
+    'C15': 'Also: the armour footer pattern folded and matched against LF / '
+           'CRLF / blank / EOF witnesses; each item decoder of the list '
+           'readers returns the end offset of the _match_next that located '
+           'its item.',
+    'C16': 'Also: each verify_ssh evaluated on a genuine blob of every '
+           'modelled length (RSA: ceil(bits/8) for modulus sizes that are '
+           'and are not multiples of 8) hands it to the primitive.',
+    'C17': 'Also: repeated from= / principals= / permitopen= / '
+           'environment= / subject= options accumulate.',
+    'C18': 'Also: every parsed file starts outside any Host/Match block.',
+    'C20': 'Also: a requested port 0 is replaced by the allocated port '
+           'before it is copied, used as a registry key or sent; the '
+           'multi-socket listener closes started servers on explicit error '
+           'exits.',
+}
+for _p, _t in ADDENDA.items():
+    CLAIMS[_p]['text'] = CLAIMS[_p]['text'].rstrip() + ' ' + _t
 
 PENDING = 'check not built yet in this session (planned, see DESIGN.md section 5)'
 
